@@ -67,14 +67,51 @@ def FakeOpt(has_reject):
     return _FAKE(has_reject)
 
 
+class _Null:
+    """stdout sink for verbose=True runs"""
+
+    def write(self, s):
+        return len(s)
+
+    def flush(self):
+        pass
+
+
+def quiet():
+    import contextlib
+    return contextlib.redirect_stdout(_Null())
+
+
+RTB_DEFAULTS = {"patience": 5, "d": 1e-3, "tol": 1e-5, "verbose": False}
+
+
+def _ctor_args(cfg, names):
+    """constructor arguments in the calling style of the case: 'kw' all by keyword, 'pos' positionally as far as the
+    signature allows, 'omit' leaves out every optional argument whose value is the documented default"""
+    style = cfg.get("style", "kw")
+    vals = [(n, cfg.get(k, RTB_DEFAULTS.get(k))) for n, k in names]
+    if style == "pos":
+        return [v for _, v in vals], {}
+    if style == "omit":
+        keys = dict((n, k) for n, k in names)
+        return [], {n: v for n, v in vals if n == "steps" or v != RTB_DEFAULTS.get(keys[n])}
+    return [], dict(vals)
+
+
 def new_sop(cfg, opt):
-    return pp().optim.scheduler.StopOnPlateau(opt, steps=cfg["steps"], patience=cfg["patience"],
-                                              decreasing=cfg["d"])
+    a, k = _ctor_args(cfg, [("steps", "steps"), ("patience", "patience"), ("decreasing", "d"), ("verbose", "verbose")])
+    return pp().optim.scheduler.StopOnPlateau(opt, *a, **k)
 
 
 def new_rtb(cfg):
-    return pp().utils.ReduceToBason(steps=cfg["steps"], patience=cfg["patience"], decreasing=cfg["d"],
-                                    tol=cfg["tol"])
+    a, k = _ctor_args(cfg, [("steps", "steps"), ("patience", "patience"), ("decreasing", "d"), ("tol", "tol"),
+                            ("verbose", "verbose")])
+    return pp().utils.ReduceToBason(*a, **k)
+
+
+def draw_style(rng):
+    """(verbose, style): non-default values of the rarely used keyword and the three calling styles"""
+    return rng.random() < 0.5, rng.choice(["kw", "kw", "pos", "omit"])
 
 
 def key_of(ctl, kind):
@@ -169,14 +206,15 @@ def run_graph(ctx: Ctx, kind: str, cfgs, depth: int):
         as_tensor = rng.random() < 0.3
         dtype = rng.choice(["float64", "float32"])
         shape = rng.choice([(2,), (1, 2), (2, 1)])
+        verbose, style = draw_style(rng)
         if kind == "sop":
             d = rng.choice([0.125, 1.0, 2.0 ** -10])
-            cfg = {"steps": steps, "patience": patience, "d": d}
+            cfg = {"steps": steps, "patience": patience, "d": d, "verbose": verbose, "style": style}
             opt = FakeOpt(has_reject)
             ctl = guarded(ctx, dict(cfg, kind="graph", ctl="sop"), new_sop, cfg, opt)
             nlet = 6
         else:
-            cfg = {"steps": steps, "patience": patience, "d": 1.0, "tol": 1.0}
+            cfg = {"steps": steps, "patience": patience, "d": 1.0, "tol": 1.0, "verbose": verbose, "style": style}
             ctl = guarded(ctx, dict(cfg, kind="graph", ctl="rtb"), new_rtb, cfg)
             nlet = 7  # + reset
         if ctl is None:
@@ -194,7 +232,7 @@ def run_graph(ctx: Ctx, kind: str, cfgs, depth: int):
                     variant = rng.randrange(12)
                     case = {"kind": "graph", "ctl": kind, "steps": steps, "patience": patience, "before": before,
                             "letter": letter, "variant": variant, "has_reject": has_reject, "as_tensor": as_tensor,
-                            "dtype": dtype, "shape": list(shape), "d": cfg["d"],
+                            "dtype": dtype, "shape": list(shape), "d": cfg["d"], "verbose": verbose, "style": style,
                             "last_inf": kind == "rtb" and bool(torch.isinf(ctl.last).all())}
                     if not graph_transition(ctx, ctl, case, pairs, info, opt if kind == "sop" else None):
                         continue
@@ -288,6 +326,7 @@ def run_trie(ctx: Ctx, kind: str, cfgs, L: int):
                 "has_reject": rng.random() < 0.75, "as_tensor": False, "d": rng.choice([0.125, 1.0, 2.0 ** -10]),
                 "dtype": rng.choice(["float64", "float32"]), "shape": list(rng.choice([(2,), (1, 2), (2, 1)])),
                 "vseed": rng.randrange(1 << 30)}
+        plan["verbose"], plan["style"] = draw_style(rng)
         plans.append(plan)
     lines = []
     for p in plans:
@@ -316,10 +355,12 @@ def walk_trie(ctx: Ctx, p, model, only_word=None):
     vr = random.Random(p["vseed"])
     if kind == "sop":
         opt = FakeOpt(p["has_reject"])
-        ctl = new_sop({"steps": steps, "patience": patience, "d": p["d"]}, opt)
+        ctl = new_sop({"steps": steps, "patience": patience, "d": p["d"], "verbose": p.get("verbose", False),
+                       "style": p.get("style", "kw")}, opt)
     else:
         opt = None
-        ctl = new_rtb({"steps": steps, "patience": patience, "d": 1.0, "tol": 1.0})
+        ctl = new_rtb({"steps": steps, "patience": patience, "d": 1.0, "tol": 1.0, "verbose": p.get("verbose", False),
+                       "style": p.get("style", "kw")})
     idx = [0]
     nodes = [0]
     bad = [0]
@@ -466,7 +507,7 @@ def gen_rtb_case(ctx: Ctx, n_max, force=None, long=False):
         D, TOL = U.rnd(rng.choice([0.5, 1.0, 0.25, 1e-3, 0.0]), "float32"), U.rnd(rng.choice([1e-5, 1.0, 3.0, -1.0]), "float32")
         d, tol = D, TOL
     steps = rng.choice([1, 2, 3, 4, 5, 6, 8, 10, 15, 30, 200, 0, 10 ** 9, 2 ** 40])
-    patience = rng.choice([1, 2, 2, 3, 3, 4, 5, 6, 0, 10 ** 6])
+    patience = rng.choice([1, 2, 2, 3, 3, 4, 5, 5, 6, 0, 10 ** 6])
     if long:
         steps, patience = rng.choice([10 ** 9, 2 ** 40, n_max - 3]), rng.choice([10 ** 6, 130, 257, n_max // 2])
     n = rng.randint(n_max // 2, n_max) if long else rng.randint(1, n_max)
@@ -515,7 +556,7 @@ def gen_rtb_case(ctx: Ctx, n_max, force=None, long=False):
     ctx.count("num.rtb.regenerated_near_threshold", skipped)
     return {"kind": "num.rtb", "steps": steps, "patience": patience, "d": d, "tol": tol, "D": D, "TOL": TOL,
             "vkind": first_seg["vkind"], "dtype": first_seg["dtype"], "shape": first_seg["shape"], "itemwise": itemwise,
-            "events": events}
+            "verbose": rng.random() < 0.5, "style": rng.choice(["kw", "kw", "pos", "omit"]), "events": events}
 
 
 class LossFeeder:
@@ -595,8 +636,7 @@ def check_rtb_num(ctx: Ctx, case, model_reply=None) -> bool:
     """run one numeric ReduceToBason history on the real code; oracles; returns True when everything held"""
     ok = True
     try:
-        st = pp().utils.ReduceToBason(steps=case["steps"], patience=case["patience"], decreasing=case["d"],
-                                      tol=case["tol"])
+        st = new_rtb(case)
         fp0 = fingerprint(st)
     except Exception as e:
         ctx.fail(case, f"raises: constructor {type(e).__name__}: {e}")
@@ -637,7 +677,10 @@ def check_rtb_num(ctx: Ctx, case, model_reply=None) -> bool:
             else:
                 layout = ev[2] if len(ev) > 2 else "fresh"
                 pc_prev = st.patience_count
-                st.step(feeder.make(ev[1], layout))
+                if case.get("style") == "pos":
+                    st.step(feeder.make(ev[1], layout))
+                else:
+                    st.step(loss=feeder.make(ev[1], layout))
                 code = U.ctl_code(st)
                 nd, bl, _ = U.rtb_obs_exact(last, ev[1], D, TOL, dtype)
                 aliased = layout == "reuse" and prev_layout == "reuse"
@@ -810,7 +853,8 @@ def gen_sop_case(ctx: Ctx, n_max):
         loss = x
     ctx.count("num.sop.regenerated_near_threshold", skipped)
     return {"kind": "num.sop", "steps": steps, "patience": patience, "d": d, "D": D, "vkind": vkind, "dtype": dtype,
-            "has_reject": has_reject, "layout": rng.choice(["fresh", "fresh", "slice", "reuse"]), "script": script}
+            "has_reject": has_reject, "layout": rng.choice(["fresh", "fresh", "slice", "reuse"]),
+            "verbose": rng.random() < 0.5, "style": rng.choice(["kw", "kw", "pos", "omit"]), "script": script}
 
 
 def check_sop_num(ctx: Ctx, case, model_reply=None) -> bool:
@@ -834,7 +878,10 @@ def check_sop_num(ctx: Ctx, case, model_reply=None) -> bool:
                 big[1], big[3] = last, loss
                 a, b = big[1], big[3]
             opt.feed(a, b, rc)
-            sch.step(opt.loss)
+            if case.get("style") == "pos":
+                sch.step(opt.loss)
+            else:
+                sch.step(loss=opt.loss)
             codes.append(U.ctl_code(sch))
             if case["vkind"] != "pyfloat" and (float(a) != last or float(b) != loss or (layout != "fresh" and big.tolist() !=
                                                 [9.75, last, 9.75, loss, 9.75])):
@@ -904,7 +951,7 @@ def run_num_sop(ctx: Ctx, n_cases, n_max):
 class RtbPlayer:
     def __init__(self, case):
         self.case = case
-        self.st = pp().utils.ReduceToBason(steps=case["steps"], patience=case["patience"], decreasing=case["d"], tol=case["tol"])
+        self.st = new_rtb(case)
         self.seg = {"vkind": case["vkind"], "dtype": case["dtype"], "shape": case["shape"]}
         self.feeder, self.i, self.codes = LossFeeder(self.seg), 0, []
 
@@ -1212,7 +1259,8 @@ def gen_opt_real_case(ctx: Ctx):
             "damping": rng.choice([1e-6, 1e-4, 1e-2, 1.0, 1e2]), "reject": rng.choice([1, 2, 4, 16]),
             "steps": rng.choice([1, 2, 3, 4, 6, 9]), "patience": rng.choice([1, 2, 3]),
             "d": rng.choice([1e-3, 1.0, 0.0, 1e-8]), "dtype": "float64" if prob == "rosenbrock" else rng.choice(["float64", "float32"]),
-            "x0": [rng.choice([-1.2, 0.5, 2.0, -3.0]), rng.choice([1.0, -1.0, 4.0])], "data_seed": rng.randrange(1 << 30)}
+            "x0": [rng.choice([-1.2, 0.5, 2.0, -3.0]), rng.choice([1.0, -1.0, 4.0])], "data_seed": rng.randrange(1 << 30),
+            "verbose": rng.random() < 0.5, "style": rng.choice(["kw", "pos", "omit"])}
 
 
 def run_drv_optimize_real(ctx: Ctx, n_cases):
@@ -1296,7 +1344,8 @@ def gen_mpc_case(ctx: Ctx):
     steps = rng.choice([1, 2, 2, 3, 4, 5, 6, 8, 10])
     return {"kind": "drv.mpc", "steps": steps, "patience": rng.choice([1, 2, 2, 3, 5]),
             "d": rng.choice([1e-3, 0.5, 1.0, 0.0]), "tol": rng.choice([1e-5, -1e9, -1e9, 1.0]),
-            "k_inits": rng.choice([1, 1, 1, 2, 3]), "real_lqr": False,
+            "k_inits": rng.choice([1, 1, 1, 2, 3]), "real_lqr": False, "verbose": rng.random() < 0.5,
+            "style": rng.choice(["kw", "pos", "omit"]),
             "calls": [{"mode": rng.choice(["dec", "neg", "plateau", "walk", "walk"]), "seed": rng.randrange(1 << 30)}
                       for _ in range(rng.choice([1, 2, 2, 3]))]}
 
@@ -1455,7 +1504,8 @@ def gen_icp_case(ctx: Ctx):
     return {"kind": "drv.icp", "steps": rng.choice([1, 2, 3, 4, 5, 6, 8]), "patience": rng.choice([1, 2, 2, 3, 4]),
             "d": U.rnd(rng.choice([1e-3, 0.5, 1.0]), "float32"), "tol": U.rnd(rng.choice([1e-5, 1e-5, 2.0 ** -10, -1.0]), "float32"),
             "batch": rng.choice([[], [1], [2], [3]]), "dtype": rng.choice(["float32", "float64"]),
-            "module_init": (not vary) and rng.random() < 0.4,
+            "module_init": (not vary) and rng.random() < 0.4, "verbose": rng.random() < 0.5,
+            "style": rng.choice(["kw", "pos", "omit"]),
             "scripted": rng.random() < 0.75, "data_seed": rng.randrange(1 << 30),
             "calls": [call() for _ in range(rng.choice([1, 2, 2, 3, 4]))]}
 
@@ -1663,12 +1713,14 @@ def corpus_drivers():
 def run_corpus(ctx: Ctx):
     """runs first and does not depend on VERIF_SEED: hand-written corners + every stream with a fixed generator"""
     import random
-    cases = [dict(c) for c in CORPUS]
+    cases = [dict(c, verbose=v, style=st) for c in CORPUS for v, st in ((False, "kw"), (True, "pos"))]
     reps = ctx.driver.run([rtb_num_line(c) for c in cases])
     for i, (c, rep) in enumerate(zip(cases, reps)):
         guarded(ctx, c, check_rtb_num, ctx, c, rep)
         ctx.note_case(("corpus", i), True)
     mpcs, icps = corpus_drivers()
+    mpcs = [dict(c, verbose=v) for c in mpcs for v in (False, True)]
+    icps = [dict(c, verbose=v) for c in icps for v in (False, True)]
     res = []
     for c in mpcs:
         res += [("drv.mpc", c, x) for x in (guarded(ctx, c, check_mpc, ctx, c) or [])]
@@ -1711,6 +1763,11 @@ def guarded(ctx: Ctx, case, fn, *args):
 
 
 def run(ctx: Ctx):
+    with quiet():     # verbose=True controllers print every step
+        _run(ctx)
+
+
+def _run(ctx: Ctx):
     rng = ctx.rng
     q = ctx.quick
     run_corpus(ctx)
@@ -1744,6 +1801,11 @@ def run(ctx: Ctx):
 
 def search(ctx: Ctx):
     """harder hunt on the real code with the property's own oracles (no model involved)"""
+    with quiet():
+        _search(ctx)
+
+
+def _search(ctx: Ctx):
     n0 = len(ctx.failures)
     for L, kind in ((6, "sop"), (5, "rtb")):
         for cfg in core_configs():
@@ -1765,20 +1827,15 @@ def search(ctx: Ctx):
             return
 
 
-def replay(ctx: Ctx, case) -> bool:
-    c = dict(case["case"])
-    for k in ("event", "segment", "call", "recorded", "step"):
-        c.pop(k, None)
-    kind = c.get("kind")
-    n0 = len(ctx.failures)
+def _replay_case(ctx: Ctx, c, kind) -> bool:
     if kind == "graph":
         ck = c["ctl"]
         if ck == "sop":
             opt = FakeOpt(c["has_reject"])
-            ctl = new_sop({"steps": c["steps"], "patience": c["patience"], "d": c["d"]}, opt)
+            ctl = new_sop(dict(c), opt)
         else:
             opt = None
-            ctl = new_rtb({"steps": c["steps"], "patience": c["patience"], "d": 1.0, "tol": 1.0})
+            ctl = new_rtb(dict(c, d=1.0, tol=1.0))
         s_, pc_, cont_ = U.st_decode(c["before"])
         ctl.steps, ctl.patience_count, ctl._continual = s_, pc_, cont_
         pairs, info = [], []
@@ -1786,7 +1843,6 @@ def replay(ctx: Ctx, case) -> bool:
         if pairs:
             rep = ctx.driver.run([f"c20.steps {ck} {c['steps']} {c['patience']} {pairs[0][0]} {pairs[0][1]}"])[0]
             w = int(common.parse_reply(rep)[1][0])
-            print(f"  implementation {U.st_decode(info[0][2])}  model {U.st_decode(w)}")
             if w != info[0][2]:
                 ctx.disagree("graph", c, "model != implementation")
     elif kind == "trie":
@@ -1808,6 +1864,19 @@ def replay(ctx: Ctx, case) -> bool:
         for x in r or []:
             check_loop_reply(ctx, kind, c, ctx.driver.run([x[0]])[0], x[1], x[2], x[3])
     else:
+        return False
+    return True
+
+
+def replay(ctx: Ctx, case) -> bool:
+    c = dict(case["case"])
+    for k in ("event", "segment", "call", "recorded", "step"):
+        c.pop(k, None)
+    kind = c.get("kind")
+    n0 = len(ctx.failures)
+    with quiet():
+        known = _replay_case(ctx, c, kind)
+    if not known:
         print("  unknown case kind", kind)
         return False
     for f in ctx.failures[n0:]:
